@@ -29,6 +29,7 @@ import random
 from . import common
 from .common import lst, blit, natlit, zlit
 from . import c01
+from . import c17_tfd
 from .c01 import Real, PG, apply_fs, node_lit, op_lit, GraphAnomaly, P
 
 HEADER = """From Coq Require Import List ZArith Bool.
@@ -315,6 +316,8 @@ def initial_ext(spec, order, oseed=0):
 def oracle(c):
     if c.get("anomaly"):
         return c["anomaly"]
+    if c.get("tfd"):
+        return c.get("rfail")
     pg = PG(c["kinds"], c["ins"], c["fs"])
     n = pg.n
     names = c["order"]
@@ -390,7 +393,7 @@ def oracle(c):
 
 def is_logprob_class(c):
     """a parameter of a Var's distribution has a Dist node among its ancestors"""
-    if not c.get("kinds"):
+    if not c.get("kinds") or c.get("tfd"):
         return False
     pg = PG(c["kinds"], c["ins"], c["fs"])
     dn = {d["node"] for d in c["dists"]}
@@ -580,9 +583,32 @@ def generate(ctx):
         cases.append(make_case(rnd, ctx.quick, stratum, auto_final, rerun=(i % 5 == 0)))
         i += 1
     cases += tfd_checks(ctx)
+    # real-tfd layer: array-valued models, every node compared with a from-scratch rebuild at the drawn values
+    tcases = c17_tfd.corpus_cases()
+    ntfd = 66 if ctx.quick else 420
+    trnd = random.Random(ctx.seed + 17)
+    j = 0
+    while len(tcases) < ntfd:
+        tcases.append(c17_tfd.make_case(trnd, c17_tfd.STRATA[j % len(c17_tfd.STRATA)]))
+        j += 1
+    tdist = set()
+    for c in tcases:
+        ctx.hist("tfd.stratum." + c["stratum"])
+        ctx.hist("tfd.entry." + ("some_nodes_outdated" if c.get("entry_outdated") else "coherent"))
+        ctx.hist("tfd.auto_update." + ("on" if c.get("auto", True) else "off"))
+        if any(v.get("dist") and not v["dist"]["per_obs"] for v in c["spec"]["vars"]):
+            ctx.hist("tfd.has_per_obs_false_dist")
+        if any(op[0] == "set" and c17_tfd._np_shape(op[2]) != c17_tfd.shapes_of(c["spec"])[op[1]] for op in c["ops"]):
+            ctx.hist("tfd.value_shapes_changed_before_simulate")
+        ctx.hist("tfd.draws", len(c.get("draws", [])))
+        tdist.add(json.dumps([c["spec"], c["ops"], c["skip"], c["seed"]]))
+    ctx.count(len(tcases), len(tdist))
+    cases += tcases
     distinct = set()
     ndraws = 0
     for c in cases:
+        if c.get("tfd"):
+            continue
         if c.get("anomaly"):
             ctx.hist("tfd_or_anomaly")
             continue
@@ -603,17 +629,25 @@ def generate(ctx):
         ctx.hist("nodes." + ("<=12" if n <= 12 else "13-20" if n <= 20 else ">=21"))
         ndraws += len(c["draw_order"])
         distinct.add(json.dumps([c["kinds"], c["ins"], c["pre_ops"], c["skip_ids"], c["seed"]]))
-    ctx.count(len([c for c in cases if not c.get("anomaly")]), len(distinct))
+    ctx.count(len([c for c in cases if not c.get("anomaly") and not c.get("tfd")]), len(distinct))
     ctx.hist("draws_total", ndraws)
     ctx.cov["rule"] = ("one evaluation = one simulate() call on a real model with all node values/flags compared before, after and "
                        "after update(); distinct = distinct (graph, history, skip set, seed); forced strata in round robin")
     for c in cases[:2] + cases[len(CORPUS):len(CORPUS) + 2]:
-        if not c.get("anomaly"):
+        if not c.get("anomaly") and not c.get("tfd"):
             ctx.sample({"kinds": "".join(c["kinds"]), "ins": c["ins"], "pre_ops": c["pre_ops"], "skip": c["skip"],
                         "drawn": [c["dists"][j]["names"][-1] for j in c["draw_order"]], "auto": c["auto"]})
+    for c in tcases[:1] + tcases[len(c17_tfd.CORPUS):len(c17_tfd.CORPUS) + 1]:
+        ctx.sample({"tfd_model": c["spec"], "ops": c["ops"], "skip": c["skip"], "drawn": [d["var"] for d in c.get("draws", [])]})
     ctx.tested_not_proved += [
-        "shape preservation, determinism in the seed and skip semantics with real tfd families (Normal scalar / vector / "
-        "batched, MultivariateNormalDiag) are exercised on every run, not proved (the shape arithmetic is C17_shape_preserved)",
+        "real-tfd layer (generated array-valued models of tfd.Normal / MultivariateNormalDiag variables, per_obs True/False, "
+        "keyword / positional parameters, Calc / TransientCalc / weak-Var intermediates, entry states coherent / outdated / "
+        "outdated after shape-changing assignments, both auto_update settings): after simulate every node that reports itself up to "
+        "date, and after update() EVERY node and model.state entry, is compared (shape and value) with a model rebuilt from scratch "
+        "at the drawn values; every drawn value is compared with the from-scratch distribution sampled at split(key, n)[i]; shapes "
+        "are compared with the values current at the call.  tfp's sampling law shape(sample(sh)) = sh ++ batch ++ event and the "
+        "numerical log-densities are library behaviour (hypothesis draw_shape of C17_shape_preserved_stale); the recorded "
+        "sample shapes are checked against the model's sample_shape by Coq (shapes_ok)",
         "jax.random.split(seed, n)[i] reaches the i-th visited distribution: compared by value on every draw",
         "the visiting order (Model._simulation_nodes, networkx) is an input of the model; its validity (order_okb) is "
         "checked by Coq on every case, the theorem C17_sim_graph_order ties it to the simulation graph of the code",
@@ -741,7 +775,27 @@ def case_lit(c):
 def emit(ctx, cases):
     shards = []
     per = 60
-    good = [i for i, c in enumerate(cases) if not c.get("anomaly")]
+    good = [i for i, c in enumerate(cases) if not c.get("anomaly") and not c.get("tfd")]
+    rows, owners, lrows, lowners = [], [], [], []
+    for i, c in enumerate(cases):
+        if c.get("tfd"):
+            for r in c.get("shape_rows") or []:
+                rows.append(r)
+                owners.append(i)
+            for r in c.get("lp_rows") or []:
+                lrows.append(r)
+                lowners.append(i)
+    nl = lambda l: lst(natlit(x) for x in l)
+    if lrows:
+        txt = (HEADER + "Definition rows : list lprow := "
+               + lst(f"(mkLp {blit(r['per_obs'])} {nl(r['vs'])} {nl(r['e'])} {nl(r['obs'])})" for r in lrows)
+               + ".\nLemma logprob_shapes_ok : forallb lprow_ok rows = true.\nProof. vm_compute. reflexivity. Qed.\n")
+        shards.append((ctx.new_shard(txt, "logprob_shapes_tfd"), lowners))
+    if rows:
+        txt = (HEADER + "Definition rows : list shrow := "
+               + lst(f"(mkSh {nl(r['vs'])} {nl(r['b'])} {nl(r['e'])} {nl(r['obs'])} {nl(r['final'])})" for r in rows)
+               + ".\nLemma shapes_ok : forallb shrow_ok rows = true.\nProof. vm_compute. reflexivity. Qed.\n")
+        shards.append((ctx.new_shard(txt, "shapes_tfd"), owners))
     for k in range(0, len(good), per):
         idxs = good[k:k + per]
         defs = [f"Definition c{j} : c17case :=\n  {case_lit(cases[i])}." for j, i in enumerate(idxs)]
@@ -767,6 +821,21 @@ VERDICTS = {1: "graph not well-formed", 2: "description of a Dist node does not 
 
 
 def diagnose(ctx, path, idxs, cases):
+    if "Lemma logprob_shapes_ok" in open(path).read():
+        txt = open(path).read().split("Lemma logprob_shapes_ok")[0].replace("From LV Require Import", "From LV Require Import Base.ListAux", 1)
+        ok, out = ctx.coq_eval(txt + "Eval vm_compute in (failing lprow_ok rows).\n")
+        bad = sorted({idxs[j] for j in common.parse_nat_list(out) if j < len(idxs)})
+        for i in bad:
+            cases[i]["model_disagreement"] = ("the value cached by a Dist node does not have the shape of its function "
+                                              "(per-observation log-probability, summed when per_obs is False): lprow_ok")
+        return bad
+    if "Lemma shapes_ok" in open(path).read():
+        txt = open(path).read().split("Lemma shapes_ok")[0].replace("From LV Require Import", "From LV Require Import Base.ListAux", 1)
+        ok, out = ctx.coq_eval(txt + "Eval vm_compute in (failing shrow_ok rows).\n")
+        bad = sorted({idxs[j] for j in common.parse_nat_list(out) if j < len(idxs)})
+        for i in bad:
+            cases[i]["model_disagreement"] = "a recorded sample shape / final shape does not fit sample_shape of the model (shrow_ok)"
+        return bad
     txt = open(path).read().split("Lemma shard_ok")[0]
     txt += "Eval vm_compute in (map verdict cases).\nEval vm_compute in (map (fun c => if fits_norefresh c then 1%nat else 0%nat) cases).\n"
     ok, out = ctx.coq_eval(txt)
@@ -808,6 +877,19 @@ def replay(rp) -> int:
     logging.getLogger("liesel").setLevel(logging.ERROR)
     body = rp["replay"]
     c = body.get("case", body)
+    if isinstance(c, dict) and c.get("tfd") and "spec" in c:
+        cc = c17_tfd.run(c["spec"], c["ops"], c["skip"], c["seed"])
+        r = c17_tfd.check(cc)
+        print("model:", json.dumps(c["spec"]))
+        print("operations before simulate:", json.dumps(c["ops"]))
+        print(f"simulate(PRNGKey({c['seed']}), skip={c['skip']}); draws:", [(d["var"], d["sample_shape"]) for d in cc["draws"]])
+        print("shapes at the call:", {n: list(__import__("numpy").shape(v)) for n, v in cc["entry"].items()},
+              "after:", {n: list(__import__("numpy").shape(v)) for n, v in cc["post_vars"].items()})
+        if r:
+            print("REPLAY FAILS:", r)
+            return 1
+        print("replay passes on the current tree")
+        return 0
     if isinstance(c, dict) and c.get("tfd_script"):
         class _C:
             def hist(self, *a, **k):
